@@ -362,7 +362,7 @@ fn mutations_for(seed: &seeds::Seed, idx: usize, tier: Tier, rng_seed: u64) -> V
     let mut out = vec![Case { format: fmt.clone(), seed: idx, m: Mutation::None }];
     let quick = tier == Tier::Quick;
     // (i) prefixes
-    let pstride = if b.len() <= 4096 { if quick { 7 } else { 1 } } else if quick { b.len() / 300 + 1 } else { b.len() / 3000 + 1 };
+    let pstride = if b.len() <= 4096 { if quick { 3 } else { 1 } } else if quick { b.len() / 300 + 1 } else { b.len() / 3000 + 1 };
     let mut p = 0;
     while p < b.len() {
         out.push(Case { format: fmt.clone(), seed: idx, m: Mutation::Prefix(p) });
@@ -453,7 +453,7 @@ fn mutations_for(seed: &seeds::Seed, idx: usize, tier: Tier, rng_seed: u64) -> V
         }
     }
     // (iv) havoc + garbage
-    for h in 0..(if quick { 150 } else { 6000 }) {
+    for h in 0..(if quick { 500 } else { 6000 }) {
         out.push(Case { format: fmt.clone(), seed: idx, m: Mutation::Havoc(rng_seed ^ ((idx as u64) << 32) ^ h) });
     }
     for (gi, len) in [0usize, 1, 3, 4, 8, 20, 64, 100, 300, 4096].iter().enumerate() {
